@@ -416,9 +416,10 @@ func scheduleScenarios(c *hx.Ctx) []*scn {
 		s.via(func() { s.cmd(unsub("4-times-out")) })
 		s.waitFuts(2)
 		s.mu.Lock()
-		if s.futSt[0] != "pending" || s.futSt[1] != "pending" || s.futSt[2] != "cancelled" || s.futSt[3] != "cancelled" {
+		if s.futSt[0] != "pending" || s.futSt[1] != "pending" || s.futSt[2] != "cancelled" || s.futSt[3] != "cancelled" ||
+			s.callDur[2] < s.qtmo || s.callDur[3] < s.qtmo || s.callDur[0] > s.qtmo/2 || s.callDur[1] > s.qtmo/2 {
 			s.mu.Unlock()
-			s.direct("queue", fmt.Sprintf("capacity-2-offline:commands-0,1-must-wait-and-2,3-be-refused-after-QueueTimeout:got-%v", s.futSt[:4]))
+			s.direct("queue", fmt.Sprintf("capacity-2-offline:commands-0,1-must-wait-and-2,3-be-refused-after-QueueTimeout(%v):got-%v-after-%v", s.qtmo, s.futSt[:4], s.callDur[:4]))
 		} else {
 			s.mu.Unlock()
 			s.direct("queue", "")
@@ -550,6 +551,24 @@ func scheduleScenarios(c *hx.Ctx) []*scn {
 		out = append(out, s)
 	}
 
+	// B4: the connection is lost while the dispatcher is busy (inside a send) and nothing else is queued: when it
+	// comes back it must notice the lost connection by itself and reconnect, without being poked by another command
+	for _, clean := range []bool{true, false} {
+		s := mk(fmt.Sprintf("b4-drop-while-dispatcher-busy-clean%v", clean), func(s *scn) {
+			s.start()
+			s.waitCount("online", 1)
+			s.via(func() { s.cmd(pub("o", "held-in-send", 1)) })
+			s.waitCount("send", 1)
+			s.release("drop")
+			s.waitCount("kill", 1)
+			s.release("g")
+			s.waitCount("online", 2)
+		})
+		s.clean = clean
+		s.plans = []connPlan{{holdSend: 2, holdGate: "g", dropGate: "drop"}}
+		out = append(out, s)
+	}
+
 	// B3: the connection is lost and the client is dead, but the service has not been told yet (the error callback is
 	// held before it closes the kill channel): the next command is handed to the dead client, fails with "not
 	// connected", is cancelled, and still counts for the subscription set; the ones behind it keep their place
@@ -604,8 +623,8 @@ func scheduleScenarios(c *hx.Ctx) []*scn {
 		s.waitCount("online", 1)
 		for k := 0; k < 3; k++ {
 			var tq []interface{}
-			for j := 0; j < 60; j++ {
-				tq = append(tq, fmt.Sprintf("big/%03d", (j*7+k*61)%180), (j+k)%3)
+			for j := 0; j < 100; j++ {
+				tq = append(tq, fmt.Sprintf("big/%03d", (j*7)%100+k*100), (j+k)%3) // 300 different topics, shuffled
 			}
 			b := sub(tq...)
 			s.via(func() { s.cmd(b) })
